@@ -1274,7 +1274,16 @@ def run_in_loop_case(case: dict) -> Outcome:
             result["took"] = time.monotonic() - t0
             done.set()
 
-        loop.call_later(case["delay_ms"] / 1000.0, call)
+        if case.get("from") == "executor":
+            # a fire-and-forget job in the loop's default executor (what an abandoned run_in_thread() leaves behind), racing
+            # a shutdown() issued from outside
+            def job() -> None:
+                time.sleep(case["delay_ms"] / 1000.0)
+                call()
+
+            loop.run_in_executor(None, job)
+        else:
+            loop.call_later(case["delay_ms"] / 1000.0, call)
         scheduled.set()
 
     scheduled = threading.Event()
@@ -1286,7 +1295,22 @@ def run_in_loop_case(case: dict) -> Outcome:
     try:
         if not scheduled.wait(OP_WATCHDOG_S):
             raise HarnessError("standalone server did not reach service_init")
-        if not done.wait(IN_LOOP_WATCHDOG_S + case["delay_ms"] / 1000.0):
+        if case.get("from") == "executor":
+            time.sleep(case.get("shutdown_ms", 0) / 1000.0)
+            early = threading.Thread(target=srv.shutdown, name="c18-inloop-early-shutdown", daemon=True)
+            early.start()
+            early.join(IN_LOOP_WATCHDOG_S)
+            if early.is_alive() or not done.wait(IN_LOOP_WATCHDOG_S):
+                raise Violation(
+                    "hang",
+                    f"deadlock: {case['op']}() called from a default-executor thread of the standalone server's own event loop while another "
+                    f"thread calls shutdown(): shutdown() returned={not early.is_alive()}, {case['op']}() returned={done.is_set()} after {IN_LOOP_WATCHDOG_S}s "
+                    "(serve_forever() is joining the executor, the executor thread waits for serve_forever())",
+                    op=case["op"],
+                    proto=case["proto"],
+                    in_loop_thread=False,
+                )
+        elif not done.wait(IN_LOOP_WATCHDOG_S + case["delay_ms"] / 1000.0):
             raise Violation(
                 "hang",
                 f"deadlock: {case['op']}() called on the standalone server from its own event-loop thread did not return within "
@@ -1311,7 +1335,11 @@ IN_LOOP_WATCHDOG_S = 6.0
 
 @st.composite
 def st_in_loop_case(draw: st.DrawFn, tier: str) -> dict:
-    return {"proto": draw(st.sampled_from(["tcp", "udp"])), "op": "server_close", "delay_ms": draw(st.sampled_from([0, 5, 30]))}
+    case = {"proto": draw(st.sampled_from(["tcp", "udp"])), "op": "server_close", "delay_ms": draw(st.sampled_from([0, 5, 30]))}
+    if draw(st.booleans()):
+        case["from"] = "executor"
+        case["shutdown_ms"] = draw(st.sampled_from([0, 3, 10, 28, 32]))
+    return case
 
 
 
@@ -1337,7 +1365,7 @@ CHECK = Check(
         Layer("standalone", st_standalone_case, run_standalone_case, {"quick": 40, "thorough": 200}, case_timeout_s=400.0),
         Layer("restart-race", st_restart_case, run_restart_case, {"quick": 40, "thorough": 80}, case_timeout_s=400.0, shards=8),
         Layer("real-listener", st_real_listener_case, run_real_listener_case, {"quick": 600, "thorough": 4000}),
-        Layer("in-loop", st_in_loop_case, run_in_loop_case, {"quick": 6, "thorough": 12}, shards=1, case_timeout_s=60.0),
+        Layer("in-loop", st_in_loop_case, run_in_loop_case, {"quick": 16, "thorough": 60}, shards=1, case_timeout_s=60.0),
         c18_load.LAYER,
         c18_startup.LAYER,
         c18_startup.ACCEPT_LAYER,
